@@ -286,6 +286,8 @@ func direct(c *hcase, ob *obs) []pfail {
 	add := func(k, f string, a ...interface{}) { fs = append(fs, pfail{k, fmt.Sprintf(f, a...)}) }
 	for _, p := range ob.panics {
 		switch {
+		case strings.Contains(p, "did not return") && (strings.Contains(p, "background cycle") || strings.Contains(p, "retention pass")):
+			add("FileLogger.process:hang", "%s — the periodic cycle never completes: no rotation to a new day's file, no retention, and the logger's lock stays taken (history up to that operation in the replay)", p)
 		case strings.Contains(p, "did not return"):
 			add("FileLogger.call:hang", "%s", p)
 		case strings.Contains(p, " read: "):
@@ -419,6 +421,14 @@ func direct(c *hcase, ob *obs) []pfail {
 			if o.Kind == "proc" && o.T > last+60000 {
 				last = o.T
 				ran = true
+			}
+			// "and nothing else": retention removes files of <home>/logs only — never a directory, never
+			// anything of another directory
+			for _, n := range ob.dirDels[i] {
+				add("FileLogger.clearOldLog:directory-removed", "op %d: the DIRECTORY %q under <home>/logs was removed by the retention pass (retention removes the logger's own dated log files and nothing else)", i, n)
+			}
+			for _, n := range ob.outDels[i] {
+				add("FileLogger.clearOldLog:file-outside-logs-dir-removed", "op %d: home is <base>/%s; the file %q of the OTHER home directory <base>/%s/logs was removed by this logger's retention pass", i, c.Home, n, c.Twin)
 			}
 			for _, n := range ob.dels[i] {
 				removed[n] = i
